@@ -83,29 +83,29 @@ theorem walk_shapeEq (cfg : Cfg) (f : Nat) (s : State) (t : Nat) (op : WOp) :
             exact (ih acc.1 c op1).trans (ihl _ op1)
         exact (walkSync_shapeEq s t o op).trans (hfold _ _ _)
 
+theorem moveApply_shapeEq (cfg : Cfg) (fuel : Nat) (s1 : State) (t : Nat) (newp oldp : Option Id)
+    (oldlim newlim : Bool) (delta : Nat) : ShapeEq s1 (moveApply cfg fuel s1 t newp oldp oldlim newlim delta) := by
+  unfold moveApply
+  simp only []
+  have h2 : ShapeEq s1 (if oldlim = true then (applyLim cfg fuel s1 oldp (-(delta : Int)) true).getD s1 else s1) := by
+    split
+    · exact applyLim_getD_shapeEq _ _ _ _ _ _
+    · exact ShapeEq.refl _
+  generalize (if oldlim = true then (applyLim cfg fuel s1 oldp (-(delta : Int)) true).getD s1 else s1) = s2 at h2 ⊢
+  split
+  · exact (h2.trans (applyLim_getD_shapeEq _ _ _ _ _ _)).trans (shapeEq_modify_self _ _ _ (fun _ => rfl))
+  · split
+    · split
+      · exact h2.trans (shapeEq_modify_self _ _ _ (fun _ => rfl))
+      · exact h2
+    · exact h2
+
 theorem moveMemlimit_shapeEq (cfg : Cfg) (s : State) (t : Nat) (newp oldp : Option Id) :
     ShapeEq s (moveMemlimit cfg s t newp oldp) := by
   unfold moveMemlimit
   simp only []
   split
   · exact ShapeEq.refl s
-  · have h1 := walk_shapeEq cfg s.fuel s t
-      (if (hasUse s oldp && !hasUse s newp) = true then WOp.clear
-       else if (hasUse s newp && !hasUse s oldp) = true then WOp.set else WOp.none)
-    generalize walk cfg s.fuel s t _ = w at h1 ⊢
-    obtain ⟨s1, delta⟩ := w
-    simp only [] at h1 ⊢
-    have h2 : ShapeEq s (if hasUse s oldp = true then (applyLim cfg s.fuel s1 oldp (-(delta : Int)) true).getD s1 else s1) := by
-      split
-      · exact h1.trans (applyLim_getD_shapeEq _ _ _ _ _ _)
-      · exact h1
-    generalize (if hasUse s oldp = true then (applyLim cfg s.fuel s1 oldp (-(delta : Int)) true).getD s1 else s1) = s2 at h2 ⊢
-    split
-    · exact (h2.trans (applyLim_getD_shapeEq _ _ _ _ _ _)).trans (shapeEq_modify_self _ _ _ (fun _ => rfl))
-    · split
-      · split
-        · exact h2.trans (shapeEq_modify_self _ _ _ (fun _ => rfl))
-        · exact h2
-      · exact h2
+  · exact (walk_shapeEq cfg s.fuel s t _).trans (moveApply_shapeEq _ _ _ _ _ _ _ _ _)
 
 end Usual.C01
